@@ -39,7 +39,7 @@ REPS = [
     ("d12", "{1: 2}", ["d", [[cI(1), cI(2)]]]), ("d12", "{1.0: 2}", ["d", [[cF(1.0), cI(2)]]]),
     ("s1", '"1"', ["s", "1"]), ("b1", "B[1]", ["b", [1]]), ("null", "null", None),
 ]
-QUICK_REPS = [0, 1, 2, 5, 6, 13, 14, 19]       # 1, 1.0, 2/2, 1/2, 0.5, [1], [1.0], "1"
+QUICK_REPS = [0, 1, 2, 5, 6, 10, 11, 13, 14, 19]       # 1, 1.0, 2/2, 1/2, 0.5, 2^64, 2.0^64, [1], [1.0], "1"
 MID_REPS = [0, 1, 2, 3, 4, 5, 6, 7, 9, 10, 11, 12, 13, 14, 15, 16, 19]
 
 OPS = ["set", "inc", "rem", "add", "sub", "merge", "inter", "minus", "plus", "ins"]
